@@ -118,6 +118,9 @@ def cases(tier, seed):
             for buffering in (0, 2, 7, 1024):
                 out.append({"dir": "short", "size": size, "written": w, "buf": buffering, "seed": seed,
                             "addr": list(ADDRS[(size + w + seed) % len(ADDRS)])})
+    for size in (2, 3, 4):
+        for first in range(1, size):            # (a first piece of the full size is a complete download of its own)
+            out.append({"dir": "excess", "size": size, "first": first, "seed": seed, "addr": list(ADDRS[(size + first + seed) % len(ADDRS)])})
     # empty write() calls between the chunks
     for n in range(0, 17):
         for api in ("open_size", "open_nosize", "open_size_force"):
@@ -577,10 +580,40 @@ def run_short(case, st):
                 st.violation("C01:short:frame:" + code, rc, "legal CiA 301 request", f"{fr}: {txt}")
 
 
+def run_excess(case, st):
+    """More bytes written than an expedited transfer can carry: the write is refused (the library raises) and nothing
+    of it reaches the server - neither at once nor when the stream is closed."""
+    size, first, seed = case["size"], case["first"], case.get("seed", 0)
+    idx, sub = case["addr"]
+    data = simenv.pattern(5, seed + 4)
+    node, srv, bus = make()
+    srv.expected_mux = bytes([idx & 0xFF, idx >> 8, sub])
+    srv.store[(idx, sub)] = b"GOOD"
+    st.evaluations += 1
+    st.nontrivial_n += 1
+    err = None
+    try:
+        with _no_spin(), node.sdo.open(idx, sub, "wb", size=size, buffering=0) as fp:
+            fp.write(data[:first])
+            fp.write(data[first:])
+    except Exception as e:  # noqa: BLE001
+        err = e
+    got = srv.store.get((idx, sub))
+    if err is None:
+        st.violation("C01:excess:accepted", case, "the write of a 5th byte is refused", f"returned normally, stored={got.hex()}")
+    elif got != b"GOOD":
+        st.violation("C01:excess:refused-but-stored", case, "value at the server unchanged (GOOD)",
+                     f"{type(err).__name__}; stored={got.hex()} frames={srv.frames}")
+    else:
+        st.outcome("excess: refused, nothing sent")
+
+
 def run_case(case, st):
     global ALL_COMPOSITIONS_UP_TO
     ALL_COMPOSITIONS_UP_TO = case.get("allsplits", 9)
-    if case["dir"] == "short":
+    if case["dir"] == "excess":
+        run_excess(case, st)
+    elif case["dir"] == "short":
         run_short(case, st)
     elif case["dir"] == "acc":
         run_accessor(case, st)
